@@ -189,19 +189,25 @@ func streamListen(c *ctx) {
 		// canonical form: error callbacks are made by the receive loop, event callbacks by the
 		// dispatch goroutine, so only the order AMONG events (and that `connected` comes first)
 		// is defined; errors are counted
+		// ... and `connected` is made by the caller of driver.Listen after the receive loop has been started, so a
+		// datagram that is already waiting can be delivered before it: its position is not defined either, only
+		// that it happens exactly once
 		canon := []string{}
-		nerr := 0
-		for i, t := range trace {
+		nerr, nconn := 0, 0
+		for _, t := range trace {
 			switch {
-			case t == "connected" && i == 0:
-				canon = append(canon, "connected")
 			case t == "connected":
-				canon = append(canon, "connected-late")
+				nconn++
 			case t == "error":
 				nerr++
 			default:
 				canon = append(canon, t)
 			}
+		}
+		if nconn == 1 {
+			canon = append([]string{"connected"}, canon...)
+		} else {
+			canon = append([]string{fmt.Sprintf("connected-x%d", nconn)}, canon...)
 		}
 		canon = append(canon, fmt.Sprintf("errors=%d", nerr))
 		c.w.Emit("listen | "+strings.Join(hx, " "), strings.Join(canon, " ; ")+" ; "+end+" "+stable,
